@@ -28,6 +28,9 @@ THEOREMS = [
     "Verif.C12.odijk_force_of_distance",
     "Verif.C12.trig_root_order",
     "Verif.C12.ms_selected_root_partial",
+    "Verif.C12.cubic_vec_pointwise",
+    "Verif.C12.cubic_vec_pointwise_float",
+    "Verif.C12.cubic_vec_roots",
     "Verif.C12.cubic_cardano_unique",
     "Verif.C12.cubic_cardano_boundary",
     "Verif.C12.ms_selected_root",
@@ -658,6 +661,28 @@ def run_case(case):
                 ans.append(r)
                 ops.append(eval_op(e, params, [via["x"]]))
             return ans, ops
+        if op == "cubicvec":
+            # calc_cubic_root on whole arrays (rows of both branches in one call: the masked reads and writes), and
+            # then row by row through the same function: `alone`
+            solve, how = cubic_solver()
+            rows, k = case["rows"], case["k"]
+            cols = [np.array([r[j] for r in rows], dtype=float) for j in range(3)]
+            line = f"c12.cubicvec {enc_list(cols[0], enc_float)} {enc_list(cols[1], enc_float)} {enc_list(cols[2], enc_float)} {k}"
+            if solve is None or (k > 2 and how == "watched"):
+                return ["?", "?"], [line, "c12.skip"]
+            with np.errstate(all="ignore"):
+                try:
+                    whole = enc_vals(solve(cols[0], cols[1], cols[2], k)) if rows else enc_list(
+                        np.asarray(solve(cols[0], cols[1], cols[2], k), dtype=float).ravel(), enc_float)
+                except Exception as ex:  # noqa: BLE001
+                    whole = errname(ex)
+                alone = []
+                for r in rows:
+                    try:
+                        alone.append(enc_float(np.atleast_1d(solve(np.array([r[0]]), np.array([r[1]]), np.array([r[2]]), k))[0]))
+                    except Exception as ex:  # noqa: BLE001
+                        alone.append(errname(ex))
+            return [whole, "|".join(alone)], [line, "c12.skip"]
         if op == "shift":
             # theorem ems_distance_is_shifted_ms on the implementation: the extensible and the inextensible
             # Marko-Siggia distance at the same forces and parameters (two public constructors, two cubics)
@@ -817,6 +842,8 @@ def agree(case, i, ia, ma):
         return True  # an observation of private code that could not be made (see cubic_solver): nothing to compare
     if ma == "bad-op" and ia == "skipped-nonfinite":
         return True
+    if case["op"] == "cubicvec" and i == 1:
+        return True  # the row-by-row answers of the implementation: for the oracle only
     if case["op"] == "names":
         return ia == ma
     if not ma.startswith("[") and not ma.startswith("b") and ma != "nan":
@@ -946,6 +973,28 @@ def oracle(case, ia):
             if got is None or len(got) != 1:
                 return f"evaluation: {via['kind']}({via['x']}) on valid input gave {ia[len(case['ks'])][:60]}"
             return published_clause(via["kind"], via["args"], [via["x"]], got)
+        return None
+    if op == "cubicvec":
+        if ia[0] == "?":
+            return None
+        rows, k = case["rows"], case["k"]
+        if k > 2:
+            return None if ia[0] == "RuntimeError" else f"selected_root={k}: expected RuntimeError, got {ia[0]}"
+        got = dec_vals(ia[0])
+        if got is None or len(got) != len(rows):
+            return f"cubic-vector: calc_cubic_root on {len(rows)} rows gave {ia[0][:60]}"
+        alone = ia[1].split("|") if ia[1] else []
+        for i, (row, y) in enumerate(zip(rows, got)):
+            # every entry is judged as the answer to ITS row (root of that row's cubic) ...
+            r = oracle({"op": "cubic", "abc": row, "ks": [k]}, [enc_float(y)])
+            if r:
+                return f"cubic-vector: entry {i} of {len(rows)}: {r}"
+            # ... and is what the row gets when it is asked for alone (no value may depend on, or land in, another row)
+            if alone[i].startswith("b"):
+                ya = dec_float(alone[i])
+                if not (ya == y or (math.isnan(ya) and math.isnan(y)) or abs(ya - y) <= 1e-12 * max(abs(y), abs(row[0]))):
+                    return (f"cubic-vector: entry {i} of calc_cubic_root on {len(rows)} rows is {y}, the same row alone gives {ya} "
+                            f"(row {row}, selected_root={k})")
         return None
     if op == "shift":
         Lp, Lc, St, kT = case["args"]
@@ -1344,6 +1393,10 @@ def shrink(case):
             c = dict(case)
             c["xs"] = case["xs"][:1]
             yield c
+    if case["op"] == "cubicvec" and len(case["rows"]) > 1:
+        rows = case["rows"]
+        for i in range(len(rows)):
+            yield dict(case, rows=rows[:i] + rows[i + 1:])
     if case["op"] == "shift" and len(case["xs"]) > 1:
         for x in case["xs"]:
             yield dict(case, xs=[x])
@@ -1662,6 +1715,16 @@ def small_scope(rng, quick):
                     yield {"stream": "small-scope", "op": "cubic", "ks": [0, 1, 2],
                            "abc": [float(t) for t in cubic_one_real(sc * r1, sc * re, sc * im)], "roots": [float(sc * r1)]}
     yield {"stream": "small-scope", "op": "cubic", "ks": [3], "abc": [0.0, -1.0, 0.0], "roots": [-1.0, 0.0, 1.0]}
+    # calc_cubic_root on arrays, exhaustive: every vector of length 0..3 over a pool of two Cardano rows and two
+    # trigonometric rows (every mask pattern of these lengths), all three selected roots
+    pool = [[0.0, 1.0, 1.0], [-1.0, 1.0, -1.0], [0.0, -1.0, 0.0], [-7.0, 14.0, -8.0]]
+    vecs = [[]]
+    for _ in range(3):
+        vecs = vecs + [v + [row] for v in vecs if len(v) == max(len(w) for w in vecs) for row in pool]
+    for v in vecs:
+        for k in (0, 1, 2):
+            yield {"stream": "small-scope", "op": "cubicvec", "rows": v, "k": k}
+    yield {"stream": "small-scope", "op": "cubicvec", "rows": [pool[0], pool[2]], "k": 3}
     # the extensible and the inextensible Marko-Siggia distance at the same forces (elastic shift Lc F/St), default
     # parameters and a short / soft tether, forces over the whole common validity range on both sides of det = 0
     for args in ([40.0, 16.0, 1500.0, 4.11], [40.0, 0.3, 750.0, 4.11], [60.0, 30.0, 2250.0, 2.055], [20.0, 2.0, 750.0, 6.165]):
@@ -2049,6 +2112,14 @@ def cases(tier, rng):
         if c is not None:
             yield c
 
+    # ---- (a'') calc_cubic_root on arrays whose rows take different branches
+    r = rng.fork("c12-cubicvec")
+    for i in range(300 if quick else 6000):
+        sub = r.fork(i)
+        rows = [gen_cubic(sub.fork(j), j)["abc"] for j in range(sub.randint(1, 12))]
+        yield {"stream": "random", "op": "cubicvec", "rows": rows, "k": sub.choice([0, 1, 1, 2, 2]) if not sub.chance(0.02) else 3,
+               "subseed": i}
+
     # ---- (a') elastic shift between the two Marko-Siggia distance models (theorem ems_distance_is_shifted_ms)
     r = rng.fork("c12-shift")
     for i in range(300 if quick else 6000):
@@ -2147,6 +2218,7 @@ def extra_coverage(results):
     by_ctor = {}   # closed-form constructor -> branch of calc_cubic_root -> [values, of which inside the relation's domain]
     small_cubic = {"three distinct real roots": 0, "repeated root (det = 0 up to rounding)": 0, "one real root": 0}
     shift = {"cases": 0, "forces": 0, "det>=0 (Cardano)": 0, "det<0 (trigonometric)": 0}
+    vec = {"arrays": 0, "rows": 0, "arrays_with_both_branches": 0, "by_length": {}, "small_scope_mask_patterns": set()}
     for r in results:
         c = r["case"]
         kinds[c["op"]] = kinds.get(c["op"], 0) + 1
@@ -2154,6 +2226,14 @@ def extra_coverage(results):
             ex = c["roots"]
             small_cubic["one real root" if len(ex) == 1 else "three distinct real roots" if len(set(ex)) == 3
                         else "repeated root (det = 0 up to rounding)"] += 1
+        if c["op"] == "cubicvec" and r["model"] and r["model"][0].startswith("[") and r["impl"][0] != "?":
+            brs = "".join(br for _, _, br in parse_model_list(r["model"][0]))
+            vec["arrays"] += 1
+            vec["rows"] += len(brs)
+            vec["arrays_with_both_branches"] += ("C" in brs and "T" in brs)
+            vec["by_length"][str(len(brs))] = vec["by_length"].get(str(len(brs)), 0) + 1
+            if c["stream"] == "small-scope":
+                vec["small_scope_mask_patterns"].add(brs)
         if c["op"] == "shift" and r["model"] and r["model"][0].startswith("["):
             shift["cases"] += 1
             shift["forces"] += len(c["xs"])
@@ -2257,6 +2337,8 @@ def extra_coverage(results):
         "selected_root_by_constructor_and_branch [values, inside the domain of the published relation]": by_ctor,
         "calc_cubic_root_small_scope_exhaustive": small_cubic,
         "marko_siggia_elastic_shift": shift,
+        "calc_cubic_root_on_arrays": dict(vec, small_scope_mask_patterns=len(vec["small_scope_mask_patterns"]),
+                                          small_scope_mask_patterns_possible=1 + 2 + 4 + 8),
         "cubic_branch_split_inside_models": {"det>=0 (Cardano)": branches.get("C", 0), "det<0 (trigonometric)": branches.get("T", 0)},
         "values_compared_within_model_error_bound": compared,
         "values_dropped_bound_undetermined (det~0 or >1e-2 relative)": dropped,
